@@ -364,7 +364,8 @@ func valueFromAST(valueAST ast.Value, ttype Input, variables map[string]interfac
 		// Note: we're not doing any checking that this variable is correct. We're
 		// assuming that this query has been validated and the variable usage here
 		// is of the correct type.
-		return variables[valueAST.Name.Value]
+		// a copy: the same variable may feed several resolver invocations
+		return copyArgValue(variables[valueAST.Name.Value])
 	}
 	switch ttype := ttype.(type) {
 	case *NonNull:
